@@ -239,7 +239,7 @@ theorem parse_build_covered (x : Sequence) (o : MapOrders) (h : covered x = true
   rw [build_order_irrelevant x o MapOrders.id]
   unfold Genbank.parse
   rw [show (['\n'] : Str) = ['\n'] from rfl, split_nl_eq_lines, lines_build_eq_layout x h]
-  have := Lemmas.Genbank.parseLoop_layout (toRec x) (polyLayout x) [] hwf (by simp) rfl
+  have := Lemmas.Genbank.parseLoop_layout (toRec x) (polyLayout x) [] hwf (by simp)
   simpa using this
 
 /-- … and that is the record the writer was given -/
